@@ -171,7 +171,9 @@ def gen_ops(rng, n, wellformed=True, hot=None):
                                    ['tm'] + list(rng.choice(MATS))]))
             continue
         if intext:
-            if r < 0.3:
+            if ops[-1][0] == 'bt' and r < 0.85:
+                ops.append(['tm'] + list(rng.choice(MATS)))
+            elif r < 0.3:
                 ops.append(['et']); stack.pop()
             elif r < 0.55:
                 ops.append(['tm'] + list(rng.choice(MATS)))
@@ -1523,6 +1525,13 @@ def check(run):
                    'first disagreement: %s' % json.dumps([{'html': c['html'][:1500], 'options': c['options'], 'trace': {k: v for k, v in tr.items()}} for c, tr in mism[:1]])[:6000])
         contradicted = [(docs[ci][0], tr) for (ci, tr), m in zip(items, masks) if m & (2 | 4)]
         run.oblige('thm-vs-traces(no real trace contradicts the theorems)', not contradicted, json.dumps([tr for _, tr in contradicted[:1]])[:3000])
+        for (ci, tr), m in zip(items, masks):
+            if m & 4:
+                c = docs[ci][0]
+                run.fail('on this document a skipped operator was not redundant: the items of stream #%d render differently from the un-optimised sequence' % tr['index'],
+                         {'stream': 'traces', 'html': c['html'], 'options': c.get('options'), 'zoom': c.get('zoom', 1), 'trace_index': tr['index']},
+                         signature='stream:skip-unsound')
+                break
         nwb = ntm = 0
         for (ci, tr), m in zip(items, masks):
             case, o = docs[ci]
